@@ -135,8 +135,7 @@ def registration(check, P):
             check.ok("R4", "teardown disconnects every writer with the wait flag")
         else:
             check.violation("R4", "registration:teardown-disconnect", f"teardown() disconnects {dc}, expected every registered writer once, passing wait", [])
-    if not done:
-        raise AnalysisError("C14.R4: registration sequence never completes")
+    check.floor(not (not done), "C14.R4: registration sequence never completes")
     return n
 
 
@@ -207,8 +206,7 @@ def file_writer(check, P, codecs):
             check.violation("R5", "file:flush", f"{label}: flush() does not reach the stream", d)
         if not (isinstance(path.value, Const) and path.value.v is None):
             check.violation("R5", "file:still-connected", f"{label}: after disconnect() the writer still holds {path.value!r}", d)
-    if done < 4:
-        raise AnalysisError(f"C14.R5: only {done} completing FileWriter paths (floor 4)")
+    check.floor(not (done < 4), f"C14.R5: only {done} completing FileWriter paths (floor 4)")
     return n
 
 
@@ -271,8 +269,7 @@ def run(check, repo, tier):
         if len(check.samples) < 6 and r["items"]:
             check.sample({"command": r["command"], "context": r["ctx"], "abstract_paths": r["paths"],
                           "statements_delivered_to_both": sum(1 for it in r["items"] if it[0] == "ok" and it[1] == "R1")})
-    if n1 < 500:
-        raise AnalysisError(f"C14.R1: only {n1} delivery obligations (floor 500)")
+    check.floor(not (n1 < 500), f"C14.R1: only {n1} delivery obligations (floor 500)")
     P = cr.program
     n4 = registration(check, P)
     n5 = file_writer(check, P, codecs)
@@ -280,8 +277,7 @@ def run(check, repo, tier):
     names = {c.lower().replace("_", "-") if isinstance(c, str) else c for _, c in codecs}
     sites = sorted(s for s, _ in codecs)
     need = {"GCodeCore.write/encode", "FileWriter.write", "LogWriter.write", "PrintrunWriter._send_statement"}
-    if not need <= set(sites):
-        raise AnalysisError(f"C14.R3: codec sites not all seen: missing {sorted(need - set(sites))}")
+    check.floor(need <= set(sites), f"C14.R3: codec sites not all seen: missing {sorted(need - set(sites))}")
     if len(names) == 1:
         check.ok("R3", f"one codec at all {len(sites)} sites: {sorted(names)}")
     else:
